@@ -155,6 +155,12 @@ func c11Case(r *core.Run, idx int, rng *rand.Rand) {
 		o.EncAlg = "http://www.w3.org/2001/04/xmlenc#aes256-cbc"
 	}
 	if rng.Intn(3) == 0 {
+		o.MetaPath = []string{"/saml/v2/metadata", "other-metadata", "/"}[rng.Intn(3)]
+	}
+	if rng.Intn(3) == 0 {
+		o.DigestAlg = []string{"http://www.w3.org/2001/04/xmlenc#sha256", "http://www.w3.org/2000/09/xmldsig#sha1", "http://www.w3.org/2001/04/xmlenc#sha512"}[rng.Intn(3)]
+	}
+	if rng.Intn(3) == 0 {
 		o.Org = &provider.Organisation{Name: "Org " + plainString(rng, 3), DisplayName: "D", URL: "https://org.example"}
 	}
 	if rng.Intn(3) == 0 {
